@@ -6,6 +6,8 @@ mod c12;
 mod c13;
 mod c17;
 mod dump_gen;
+mod ifdata_case;
+mod incl;
 mod load;
 mod modelops;
 mod modops;
@@ -37,6 +39,8 @@ fn main() {
             "C13" => c13::run(&case),
             "C17" => c17::run(&case),
             "C14" | "C15" => modops::run(&case),
+            "IFDATA" => ifdata_case::run(&case),
+            "INCL" => incl::run(&case),
             "LOAD" => load::run_load(&case),
             "TOKENS" => load::run_tokens(&case),
             _ => panic!("unknown case kind {kind}"),
